@@ -120,9 +120,9 @@ def funnel(repo, rep):
             if v is None:
                 rep.violation("R-FUNNEL", site, "no-store", "the stored JDE is not assigned on this path")
                 continue
-            n += len(list(phi_leaves(v)))
+            n += 1
             for conds, leaf in phi_leaves(v):
-                msg = check_leaf(leaf)
+                msg = check_leaf(leaf) or check_form_args(form, args, leaf)
                 if msg is None:
                     continue
                 rep.violation("R-FUNNEL", site, "leaf:" + msg[:30], msg + ": " + T.show(leaf)[:140])
@@ -130,7 +130,7 @@ def funnel(repo, rep):
             else:
                 rep.ok("R-FUNNEL", site, "all %d outcome(s) are _compute_jde(year, month, day + h/24 + min/1440 + s/86400, ...) of one validated tuple"
                        % len(list(phi_leaves(v))), sample=(form in ("year, month, day", "Epoch (copy)")))
-    rep.floor("set() leaves examined", n, 20)
+    rep.floor("set() input forms with a stored JDE examined", n, 8)
     # get_full_date split
     rep.fn(MOD, "Epoch.get_full_date")
     t = ret_term(repo, MOD, "Epoch.get_full_date", arg_terms={"self": T.sym("self"), "kwargs": T.sym("KW")})
@@ -167,6 +167,43 @@ def funnel(repo, rep):
         rep.ok("R-FUNNEL", "Epoch.Epoch.set[copy]", "copy branch reads only args[0]._jde (a float: no shared state)")
     else:
         rep.violation("R-FUNNEL", "Epoch.Epoch.set", "copy-branch", "copy branch does not simply read the source's stored JDE")
+
+
+DT_FIELDS = ("year", "month", "day", "hour", "minute", "second", "microsecond")
+
+
+def check_form_args(form, args, leaf):
+    """the validated tuple is built from the components of the input in calendar order; a datetime
+    contributes its sub-second part (microsecond) to the seconds"""
+    V = leaf[3][1]
+    if V[1] != "Epoch.Epoch._check_values":
+        return None
+    got = V[3:]
+    src = args[1]
+    if src[0] in ("tuple", "list"):
+        want = src[1:]
+    elif src[0] == "sym":
+        want = args[1:]
+    elif src[0] == "pyobj":
+        attr = lambda n: ("attr", src, n)
+        reads = {x[2] for g in got for x in T.walk(g) if x[0] == "attr" and x[1] == src}
+        calls = {x[1] for g in got for x in T.walk(g) if x[0] == "call" and src in x[2:]}
+        if calls - {".timetuple"} or reads - set(DT_FIELDS):
+            return None        # an access path this rule does not know: not decided here
+        if src[1] == "datetime.datetime":
+            if "microsecond" not in reads:
+                return ("the datetime form does not read .microsecond: the sub-second part of the instant is dropped "
+                        "(the same instant given as numbers keeps it)")
+            want = tuple(attr(n) for n in DT_FIELDS[:5]) + (T.add(attr("second"), T.mul(T.num(Fraction(1, 10 ** 6)), attr("microsecond"))),)
+        else:
+            want = tuple(attr(n) for n in DT_FIELDS[:3])
+        if calls:
+            return None
+    else:
+        return None
+    if tuple(got) != tuple(want):
+        return "the components of the input are not handed to _check_values in calendar order (year, month, day, hour, minute, second)"
+    return None
 
 
 def check_leaf(leaf):
